@@ -186,6 +186,8 @@ impl ConnCfg {
             .set_handle_qos_after_disconnect(self.handle_qos_after_disconnect.map(Self::qos));
         if self.connect_timeout != 0 {
             m = m.set_connect_timeout(Seconds(self.connect_timeout));
+            // combined server: the protocol-version detection has its own deadline
+            m = m.protocol_version_timeout(Seconds(self.connect_timeout));
         }
         let mut io = IoConfig::new().set_disconnect_timeout(Seconds(self.disconnect_timeout));
         if let Some((h, l)) = self.write_buf {
